@@ -45,6 +45,41 @@ func checkC09(c *Ctx) {
 		{ZapPath, "_encoderMutex", []string{"_encoderNameToConstructor"}},
 	} {
 		held := map[*ssa.Function]map[ssa.Instruction]LockSet{}
+		if g.mu == "_globalMu" && len(c.GlobalAccesses(g.pkg, g.vars[0])) == 0 {
+			// the global loggers kept in one struct with its own mutex: the struct's guarded-by discipline
+			done := false
+			if pk := c.Pkg(g.pkg); pk != nil {
+				sc := pk.Types.Scope()
+				for _, n := range sc.Names() {
+					tn, ok := sc.Lookup(n).(*types.TypeName)
+					if !ok || tn.IsAlias() {
+						continue
+					}
+					named, _ := tn.Type().(*types.Named)
+					st, _ := tn.Type().Underlying().(*types.Struct)
+					if named == nil || st == nil {
+						continue
+					}
+					mu := ""
+					guarded := map[string]bool{}
+					for i := 0; i < st.NumFields(); i++ {
+						switch TypeName(st.Field(i).Type()) {
+						case "sync.RWMutex", "sync.Mutex":
+							mu = FN(st.Field(i))
+						case "*zap.Logger", "*zap.SugaredLogger":
+							guarded[FN(st.Field(i))] = true
+						}
+					}
+					if mu != "" && len(guarded) == 2 && st.NumFields() == 3 {
+						guardedBy(c, "R9.1", named, guarded, mu, nil, func(Access) string { return "" })
+						done = true
+					}
+				}
+			}
+			if done {
+				continue
+			}
+		}
 		for _, v := range g.vars {
 			accs := c.GlobalAccesses(g.pkg, v)
 			if len(accs) == 0 {
@@ -269,6 +304,36 @@ func c9Immutable(c *Ctx) {
 			if _, isParam := v.(*ssa.Parameter); isParam && FNm(fn) == "apply" {
 				continue
 			}
+			// an unexported helper that applies a list of options to the logger it is handed: fresh when every call
+			// site hands it a fresh one
+			if p, isParam := v.(*ssa.Parameter); isParam && !fresh && fn.Parent() == nil && !token.IsExported(fn.Name()) && len(sitesOf(fn)) > 0 {
+				idx := -1
+				for i, q := range fn.Params {
+					if q == p {
+						idx = i
+					}
+				}
+				all := idx >= 0
+				for _, site := range sitesOf(fn) {
+					sa := Args(site)
+					if idx < 0 || idx >= len(sa) {
+						all = false
+						continue
+					}
+					av := Strip(sa[idx])
+					okA := IsFresh(av)
+					if call, isCall := av.(*ssa.Call); isCall {
+						if cf := CalleeFunc(call); cf != nil && FNm(cf) == "clone" {
+							okA = true
+						}
+						if sc := call.Call.StaticCallee(); sc != nil && returnsFresh(sc, 0) {
+							okA = true
+						}
+					}
+					all = all && okA
+				}
+				fresh = all
+			}
 			c.Check(fresh, "R9.3", FuncKey(fn), "apply-on-fresh/"+target, cl.Pos(), "options are applied to a fresh object or clone (%s), never to a shared %s", Desc(args[1]), target)
 			if fresh {
 				applyOK[target] = true
@@ -350,7 +415,37 @@ func c9Atomics(c *Ctx) {
 		t := TypeName(st.Field(i).Type())
 		ft = append(ft, FN(st.Field(i))+" "+t)
 		if !strings.HasPrefix(t, "atomic.") {
-			ok = false
+			// a plain integer is as good when nothing but the functions of sync/atomic ever touches it
+			onlyAtomic := t == "int64" || t == "uint64" || t == "int32" || t == "uint32"
+			n := 0
+			fname := FN(st.Field(i))
+			c.EachRootFunc(func(fn *ssa.Function) {
+				AllInstrs(fn, func(in ssa.Instruction) {
+					fa, isFA := in.(*ssa.FieldAddr)
+					if !isFA || fieldName(fa.X.Type(), fa.Field) != fname {
+						return
+					}
+					if nn, _ := types.Unalias(deref(fa.X.Type())).(*types.Named); nn == nil || nn.Obj() != cnt.Obj() {
+						return
+					}
+					n++
+					if fa.Referrers() == nil {
+						return
+					}
+					for _, r := range *fa.Referrers() {
+						cl, isCall := r.(ssa.CallInstruction)
+						if _, isDbg := r.(*ssa.DebugRef); isDbg {
+							continue
+						}
+						if !isCall || CalleeFunc(cl) == nil || CalleeFunc(cl).Pkg() == nil || CalleeFunc(cl).Pkg().Path() != "sync/atomic" {
+							onlyAtomic = false
+						}
+					}
+				})
+			})
+			if !onlyAtomic || n == 0 {
+				ok = false
+			}
 		}
 	}
 	c.Check(ok, "R9.4", CorePath+".counter", "all-atomic", cnt.Obj().Pos(), "every field of the sampler counter is a sync/atomic type (%v)", ft)
